@@ -16,7 +16,13 @@ RULE = ('E4 fault enumerator over K_rep (85 reference-encoded frames of all '
         'strings and header shapes again with debug logging switched on. A case is one input '
         'byte string; distinct by content; non-trivial = the decoder got '
         'past the envelope checks (returned a frame or failed inside a '
-        'content decoder).')
+        'content decoder).'
+        ' '
+        'Also: scalar payloads around the limits of the Python types '
+        'behind every tag and content headers with 1..20000 chained '
+        'flag words (terminated or not); import probes and -bb / -OO '
+        '-bb child interpreters repeat the error-path tasks with '
+        'debug logging and with warnings raised as errors.')
 BOUNDS = {'quick': {'small_string_len': '3 (28 symbols), 4 (12 symbols)',
                     'full16': '2 headers + 1 method',
                     'pairs': 'none'},
